@@ -282,6 +282,7 @@ class HeaderStream(cstream.Stream):
             self.c["distinct_targets_accepted"] += 1
 
     def run_world(self, rng, classes, nblocks, ncand, params=None, dt_choices=None):
+        self.rejected_pool = []
         world = gen.World(rng, params=params)
         world.dt_choices = dt_choices
         self.grow(world, nblocks, rng)
@@ -312,6 +313,8 @@ class HeaderStream(cstream.Stream):
                            self.witness(world, rblk, now, cls))
                     continue
             self.attempt(world, rblk, now, cls, must, may, claim_valid_accept=is_real)
+            if rng.random() < 0.3:
+                self.reoffer(world, rng)
             # the future-time rule: the same valid block at clock ts-30 (passes) and ts-31 (must not)
             if not must and rng.random() < 0.5:
                 vb = classes["valid-ref-assembly"](world, self.pick_parent(world, rng), rng)[0]
